@@ -1101,7 +1101,8 @@ def h_c11_base(L):
     b.append('if let Some(s) = vstorage(&x) { assert!(s == r128, "VERIF storage after new_with_raw_value != value"); }')
     b.append(f'if let Some(s) = vstorage(&{S}::ZERO) {{ assert!(s == 0, "VERIF storage of ZERO"); }}')
     if L.default:
-        b.append(f'if let Some(s) = vstorage(&{S}::DEFAULT) {{ assert!(s == {L.default_value():#x}u128, "VERIF storage of DEFAULT"); }}')
+        b.append(f'if let Some(s) = vstorage(&{S}::DEFAULT) {{ assert!(s <= {mask(L.base):#x}u128, "VERIF DEFAULT carries state above bit N-1"); assert!(s == {L.default_value():#x}u128, "VERIF storage of DEFAULT"); assert!({H.raw_of(L, S + "::DEFAULT")} == s, "VERIF raw_value() of DEFAULT hides state"); }}')
+        b.append(f'if let Some(s) = vstorage(&<{S} as Default>::default()) {{ assert!(s <= {mask(L.base):#x}u128, "VERIF Default::default() carries state above bit N-1"); }}')
     b.append(f'assert!({H.raw_of(L, "x")} == r128, "VERIF raw_value() != state");')
     b.append('vcover!(vstorage(&x).is_some(), "VERIF-REACH-storage-readable");')
     b.append("vend!();")
